@@ -384,6 +384,13 @@ theorem c09_inv_step (s : State) (now : Nat) (f : Faults) (op : Op) (hi : Inv s)
     split
     · exact hi
     · split <;> first | exact hi | exact same s _ rfl rfl hi
+  | close =>
+    simp only [step]
+    split
+    · exact hi
+    · split
+      · exact hi
+      · exact same s _ rfl rfl hi
 
 /-- a history: operations with their times and fault sets -/
 def runHist (s : State) : List (Op × Nat × Faults) → State
